@@ -117,10 +117,11 @@ def resolve_case(case):
     i = case["in"]
     n, d, g, form, kinds, u, present = i["n"], i["d"], i["g"], i["form"], i["kinds"], i["u"], i["present"]
     names = ("a1", "a2", "a3", "a4")[:n]
+    VAL = i["values"]        # the value each source supplies at each position (one of them is exactly 0)
 
     class K(Expr):
         argument_names = names
-        argument_defaults = tuple(20 + j for j in range(n - d + 1, n + 1)) if d > 0 else None
+        argument_defaults = tuple(VAL["def"][j - 1] for j in range(n - d + 1, n + 1)) if d > 0 else None
 
         def __call__(self, variables, backend=math, **kw):
             return tuple(self.all_args(variables, backend=backend))
@@ -132,17 +133,17 @@ def resolve_case(case):
         vals = []
         for idx, kind in enumerate(kinds, 1):
             if kind == "num":
-                vals.append(10 + idx)
+                vals.append(VAL["arg"][idx - 1])
             elif kind == "name":
                 vals.append("nm%d" % idx)
-                variables["nm%d" % idx] = 40 + idx
+                variables["nm%d" % idx] = VAL["name"][idx - 1]
             else:
-                vals.append(Constant(50 + idx))
+                vals.append(Constant(VAL["expr"][idx - 1]))
         args = vals if form == "list" else (dict(zip(names, vals)) if form == "dict" else vals[0])
     uk = None if u == -1 else tuple("key%d" % j for j in range(1, u + 1))
     for j, p in enumerate(present, 1):
         if p:
-            variables["key%d" % j] = 30 + j
+            variables["key%d" % j] = VAL["ovr"][j - 1]
     try:
         inst = K(args, unique_keys=uk)
     except Exception as e:
@@ -364,10 +365,11 @@ VARKEY = {"T": "temperature", "log10_T": "log10_temperature", "R": "molar_gas_co
           "kB": "Boltzmann_constant", "h": "Planck_constant"}
 
 
-def _reaction(order, param=None):
+def _reaction(order, param=None, sk=None):
     from chempy import Reaction
-    reac = {1: {"X": 1}, 2: {"X": 1, "Y": 1}, 3: {"X": 2, "Y": 1}}[order]
-    return Reaction(reac, {"P": 1}, param)
+    sk = sk or {"X": "X", "Y": "Y", "P": "P"}
+    reac = {1: {sk["X"]: 1}, 2: {sk["X"]: 1, sk["Y"]: 1}, 3: {sk["X"]: 2, sk["Y"]: 1}}[order]
+    return Reaction(reac, {sk["P"]: 1}, param)
 
 
 class _Law(object):
@@ -380,6 +382,8 @@ class _Law(object):
         self.units = self.mode in ("units", "units-scaled")
         self.result_units = case["exp"]["result_units"]
         self.nlanes = len(self.c["lane_factors"])
+        self.sk = self.c.get("species_keys") or {"X": "X", "Y": "Y", "P": "P", "Q": "Q"}
+        self.target = None
 
     def val(self, name, x):
         if self.units:
@@ -412,9 +416,9 @@ class _Law(object):
                 continue
             if nm in c["lane_vars"]:
                 import numpy as np
-                out[VARKEY.get(nm, nm)] = np.array([float(_num(x) * Fraction(f[0], f[1])) for f in c["lane_factors"]])
+                out[self.key(nm)] = np.array([float(_num(x) * Fraction(f[0], f[1])) for f in c["lane_factors"]])
             else:
-                out[VARKEY.get(nm, nm)] = self.val(nm, x)
+                out[self.key(nm)] = self.val(nm, x)
         for j, p in enumerate(c["present"]):
             if p:
                 nm = c["argnames"][j]
@@ -426,6 +430,10 @@ class _Law(object):
             out["temperature"] = RampedTemp([self.plain(r["T0"], "K"), self.plain(r["dTdt"], "K/s")])
             out["time"] = self.plain(r["time0"], "s")
         return out
+
+    def key(self, nm):
+        """key of the variables mapping for an abstract variable / species name"""
+        return self.sk.get(nm, VARKEY.get(nm, nm))
 
     def plain(self, x, ustr):
         v = float(_num(x))
@@ -471,7 +479,8 @@ class _Law(object):
         c = self.c
         cls, order = c["cls"], c["order"]
         args, uk = self.given_args(), self.unique_keys()
-        rxn = _reaction(order)
+        sk = self.sk
+        rxn = _reaction(order, None, sk)
         fns = {}
 
         def inst(K):
@@ -484,16 +493,20 @@ class _Law(object):
             return K(args, uk)
 
         def rate_fns(ma, param_for_reaction=None):
-            rx = _reaction(order, ma if param_for_reaction is None else param_for_reaction)
+            rx = _reaction(order, ma if param_for_reaction is None else param_for_reaction, sk)
+            if self.target is None:
+                self.target = ma.args[0] if ma.args is not None and isinstance(ma.args[0], X.Expr) else ma
             kc = float(_num(c["companion_k"]))
             if self.units:
                 kc = kc * _unit("1/M/s")
-            comp = Reaction({"X": 1, "Y": 1}, {"Q": 1}, R.MassAction([kc]))
+            comp = Reaction({sk["X"]: 1, sk["Y"]: 1}, {sk["Q"]: 1}, R.MassAction([kc]))
             fns["self"] = lambda V: [self.run(lambda v, be: ma(v, backend=be, reaction=rxn), V)]
-            fns["rate"] = lambda V: [self.run(lambda v, be: rx.rate(v, backend=be)["P"], V)]
-            fns["companion"] = lambda V: [self.run(lambda v, be: comp.rate(v, backend=be)["Q"], V)]
+            fns["rate"] = lambda V: [self.run(lambda v, be: rx.rate(v, backend=be)[sk["P"]], V)]
+            fns["companion"] = lambda V: [self.run(lambda v, be: comp.rate(v, backend=be)[sk["Q"]], V)]
 
         def expr_fn(obj, **kw):
+            if self.target is None:
+                self.target = obj
             fns["self"] = lambda V: [self.run(lambda v, be: obj(v, backend=be, **kw), V)]
 
         if cls in ("MassAction", "Arrhenius", "Eyring", "EyringHS"):
@@ -522,6 +535,18 @@ class _Law(object):
                 return reduce(add, [cf * (x - x0) ** i for i, cf in enumerate(a[1:])])
             Poly = X.Expr.from_callback(poly, parameter_keys=("x",), argument_names=("x0", Ellipsis))
             expr_fn(Poly(args, uk))
+            return fns
+        if cls in ("CallbackDefault", "CallbackNargs"):
+            def lin(a, T, backend=math, **kw):
+                return a[0] * T + a[1]
+            if cls == "CallbackDefault":
+                d0 = float(_num(c["defaults"]["b"]))
+                K = X.Expr.from_callback(lin, parameter_keys=("temperature",), argument_names=("a", "b"),
+                                         argument_defaults=(d0,))
+                expr_fn(inst(K))
+            else:
+                K = X.Expr.from_callback(lin, parameter_keys=("temperature",), nargs=2)
+                expr_fn(K(args, uk))
             return fns
         if cls == "EqCallback":
             def gibbs(a, T, backend=math, **kw):
@@ -558,7 +583,8 @@ class _Law(object):
         if cls in ("MassActionEq", "EqEquation"):
             from chempy import Equilibrium
             obj = inst(TE.MassActionEq)
-            eq = Equilibrium({"X": 1}, {"Y": 2}, obj)
+            eq = Equilibrium({sk["X"]: 1}, {sk["Y"]: 2}, obj)
+            self.target = obj
             if cls == "MassActionEq":
                 expr_fn(obj)
             else:
@@ -690,6 +716,10 @@ def _fit_obs(case):
                         r = fit(x, y, errs[tag], linearized=True)
                 elif tag == "irls":
                     r, cov, info = irls(x, y)
+                elif tag == "irls-gaussian-itermax3":
+                    r, cov, info = irls(x, y, irls.gaussian, itermax=3, rmsdwtol=1e-6)
+                elif tag == "irls-exp":
+                    r, cov, info = irls(x, y, irls.exp)
                 elif tag == "units":
                     beta, vcv, r2 = least_squares_units(x * u.second, y * u.metre)
                     r = [to_unitless(beta[0], u.metre), to_unitless(beta[1], u.metre / u.second)]
@@ -727,6 +757,16 @@ def laws_case(case):
         steps = []
         moved = []
         for i, who in enumerate(c["hist"], 1):
+            if who == "setarg":
+                # the caller assigns a new first argument to the expression object itself
+                try:
+                    nm = c["argnames"][0]
+                    tgt = law.target
+                    tgt.args = [law.val(nm, c["alt"][nm])] + list(tgt.args[1:])
+                    steps.append({"who": who})
+                except Exception as e:
+                    steps.append({"who": who, "raise": _exc(e)})
+                continue
             if who == "update":
                 # the caller changes a variable: everything else must still be what was passed in
                 now = _snapshot(V)
@@ -791,7 +831,7 @@ def judge_laws(case, obs):
             bad.append(({"clause": "frame"}, {"observed": obs["changed"], "expected": "variables unchanged"}))
         return bad
     for n, (st, est) in enumerate(zip(obs["steps"], exp["steps"]), 1):
-        if est["who"] == "update":
+        if est["who"] in ("update", "setarg"):
             continue
         key = {"step": n, "who": est["who"], "hist": "-".join(case["in"]["hist"])}
         if "raise" in st:
